@@ -380,3 +380,62 @@ Proof.
       destruct (Reqb_spec (w - 0) 0); [lra|]. destruct (Reqb_spec (0 - h) 0); [lra|]. destruct inv; reflexivity.
     + destruct inv; reflexivity.
 Qed.
+
+(* the other outcomes of the canvas function, in terms of the stage functions *)
+Lemma div_zero_iff a z : z <> 0 -> (a / z = 0 <-> a = 0).
+Proof.
+  intros Hz. split; intros H.
+  - apply (Rmult_eq_reg_r (/ z)); [|apply Rinv_neq_0_compat, Hz]. unfold Rdiv in H. rewrite H. ring.
+  - subst. unfold Rdiv. ring.
+Qed.
+
+Lemma canvas_raises_iff w h p t zoom inv e :
+  world_to_canvas ROps w h p t zoom inv = Raise e <->
+  e = ZeroDivisionError /\
+  (zoom = 0 \/ view_to_orthographic_projection ROps (w / zoom) (h / zoom) (1 / 10) 2000 inv = Raise ZeroDivisionError
+            \/ viewport_transform ROps w h 0 0 inv = Raise ZeroDivisionError).
+Proof.
+  unfold world_to_canvas, view_to_orthographic_projection, viewport_transform, is0, n0; rops.
+  destruct (Reqb_spec (2000 - 1 / 10) 0) as [|_]; [lra|].
+  destruct (Reqb_spec zoom 0) as [Hz|Hz].
+  - cbn [orb]. split; [intros E; injection E as <-; auto | intros [-> _]; reflexivity].
+  - pose proof (div_zero_iff w zoom Hz) as Dw. pose proof (div_zero_iff h zoom Hz) as Dh.
+    destruct (Reqb_spec w 0) as [Hw|Hw]; destruct (Reqb_spec h 0) as [Hh|Hh];
+    destruct (Reqb_spec (w / zoom) 0) as [Hwz|Hwz]; destruct (Reqb_spec (h / zoom) 0) as [Hhz|Hhz];
+    try (exfalso; tauto);
+    destruct (Reqb_spec (w - 0) 0) as [Hw0|Hw0]; try (exfalso; lra);
+    destruct (Reqb_spec (0 - h) 0) as [Hh0|Hh0]; try (exfalso; lra);
+    cbn [orb andb negb]; destruct inv; cbn [orb andb negb];
+    try (split; [intros E; injection E as <-; auto | intros [-> _]; reflexivity]);
+    destruct (w2v_degenerate ROps p t (basis_y ROps));
+    (split; [discriminate | intros [_ [A|[A|A]]]; [contradiction | discriminate | discriminate]]).
+Qed.
+
+Lemma canvas_nan_iff w h p t zoom inv :
+  world_to_canvas ROps w h p t zoom inv = Ok None <->
+  zoom <> 0 /\ (exists b, view_to_orthographic_projection ROps (w / zoom) (h / zoom) (1 / 10) 2000 inv = Ok b) /\
+  (exists c, viewport_transform ROps w h 0 0 inv = Ok c) /\ world_to_view ROps p t (V3 0 1 0) inv = None.
+Proof.
+  split.
+  - intros E. destruct (world_to_view ROps p t (V3 0 1 0) inv) as [a|] eqn:Ea.
+    + exfalso. unfold world_to_canvas, world_to_view in *. change (basis_y ROps) with (V3 0 1 0) in E.
+      destruct (w2v_degenerate ROps p t (V3 0 1 0)); [discriminate|].
+      destruct (is0 ROps zoom || is0 ROps w || is0 ROps h); discriminate.
+    + assert (N : forall e, world_to_canvas ROps w h p t zoom inv <> Raise e) by (intros e; rewrite E; discriminate).
+      assert (Hz : zoom <> 0).
+      { intros Z. apply (N ZeroDivisionError). apply canvas_raises_iff. auto. }
+      split; [exact Hz|]. split; [|split; [|reflexivity]].
+      * destruct (view_to_orthographic_projection ROps (w / zoom) (h / zoom) (1 / 10) 2000 inv) as [b|e] eqn:Eb; [eauto|].
+        exfalso. apply (N ZeroDivisionError). apply canvas_raises_iff. split; [reflexivity|]. right; left.
+        revert Eb. unfold view_to_orthographic_projection.
+        destruct (is0 ROps (nsub ROps 2000 (1 / 10))); [intros Eb; injection Eb as <-; reflexivity|].
+        destruct (negb inv && (is0 ROps (w / zoom) || is0 ROps (h / zoom))); [intros Eb; injection Eb as <-; reflexivity | discriminate].
+      * destruct (viewport_transform ROps w h 0 0 inv) as [c|e] eqn:Ec; [eauto|].
+        exfalso. apply (N ZeroDivisionError). apply canvas_raises_iff. split; [reflexivity|]. right; right.
+        revert Ec. unfold viewport_transform.
+        destruct (inv && (is0 ROps (nsub ROps w 0) || is0 ROps (nsub ROps 0 h))); [intros Ec; injection Ec as <-; reflexivity | discriminate].
+  - intros (Hz & [b Eb] & [c Ec] & En).
+    destruct (world_to_canvas ROps w h p t zoom inv) as [[m|]|e] eqn:E; [| reflexivity |].
+    + destruct (canvas_is_product_of_function_results _ _ _ _ _ _ _ E) as (a & _ & _ & Ea & _). congruence.
+    + apply canvas_raises_iff in E. destruct E as [_ [A|[A|A]]]; [contradiction | congruence | congruence].
+Qed.
